@@ -6,6 +6,7 @@ import (
 	"io"
 	"io/ioutil"
 	"net"
+	"sync"
 	"testing"
 	"time"
 
@@ -78,6 +79,27 @@ func verifC07Reader(cfg verifC07Cfg) func(data []byte) string {
 	}
 }
 
+// a fixed pool of compressed payloads: a flate writer costs >1 MB of allocation, far too slow per case under -race
+var verifC07Pool [][]byte
+var verifC07PoolOnce sync.Once
+
+func verifC07Deflated(i int) []byte {
+	verifC07PoolOnce.Do(func() {
+		r := vrand.New(77)
+		for k := 0; k < 64; k++ {
+			n := []int{0, 1, 5, 125, 126, 300, 1000, 5000}[k%8]
+			b := r.Bytes(n)
+			if k%3 == 0 {
+				for j := range b {
+					b[j] = byte('a' + j%3)
+				}
+			}
+			verifC07Pool = append(verifC07Pool, refws.Deflate(b, 1+k%9))
+		}
+	})
+	return append([]byte(nil), verifC07Pool[i%len(verifC07Pool)]...)
+}
+
 func verifC07Frames(r *vrand.Rand, masked, deflate bool) []byte {
 	var fr []refws.Frame
 	open := false
@@ -114,7 +136,7 @@ func verifC07Frames(r *vrand.Rand, masked, deflate bool) []byte {
 			f.Payload = r.Bytes(n)
 			if deflate && f.Opcode != 0 && r.Bool() {
 				f.Rsv1 = true
-				f.Payload = refws.Deflate(f.Payload, r.Range(1, 9))
+				f.Payload = verifC07Deflated(r.Intn(64))
 			}
 		}
 		if r.Chance(1, 15) {
